@@ -43,6 +43,7 @@ type Node struct {
 	Module    string   `json:"module,omitempty"`    // defining module when not the main one ("g")
 	Bits      []string `json:"bits,omitempty"`
 	Rich      bool     `json:"rich,omitempty"` // module: emit the companion module g (identities, groupings)
+	RpcMirror bool     `json:"rpcmirror,omitempty"` // module: the same definitions once more as input of rpc zzin
 	Children  []*Node  `json:"children,omitempty"`
 
 	Parent *Node `json:"-"`
@@ -343,6 +344,20 @@ func (n *Node) yang(b *strings.Builder, d int) {
 	}
 	for _, c := range n.Children {
 		c.yang(b, d+1)
+	}
+	if n.Kind == Module && n.RpcMirror {
+		// the same data definitions once more as the input of an rpc
+		ind(b, d+1)
+		b.WriteString("rpc zzin {\n")
+		ind(b, d+2)
+		b.WriteString("input {\n")
+		for _, c := range n.Children {
+			c.yang(b, d+3)
+		}
+		ind(b, d+2)
+		b.WriteString("}\n")
+		ind(b, d+1)
+		b.WriteString("}\n")
 	}
 	ind(b, d)
 	b.WriteString("}\n")
